@@ -1,7 +1,8 @@
 CONSTANTS Chars <- CharsS
+          FirstPartCanon = FALSE
           MaxWord = 2
           MaxDict = 2
 INIT SInit
 NEXT SNext
-INVARIANTS ListedAccepted CasedFormsAccepted UnknownFlagged OtherDialectFlagged
+INVARIANTS MergedListedAccepted MergedUnknownFlagged ListedAccepted CasedFormsAccepted UnknownFlagged OtherDialectFlagged
 CHECK_DEADLOCK FALSE
